@@ -12,6 +12,7 @@ import PkVerif.Gen.C19
     drain FAULT I,I,…|-                 runSync until a batch copies nothing (listed ids fail with FAULT) -> copied=N | busy
     drainfirst FAULT K                  runSync loop; the first K attempts fail (fetcherr*/desterr*) -> copied=N | busy
     outage FAULT / recover              (live) the source/destination is down for every call / is back -> ok
+    awaitfail K                         (live) wait until the outage has refused K calls since outage/restart -> ok
     restart                             crash + readQueueToMemory          -> need=N   (live: ok)
     dump                                                                    -> state line
     live                                (first op only) real syncLoop mode: only `up I ok`, `restart`, `settle`
@@ -146,6 +147,7 @@ def stepLive (v : Variant) (d : DSt) (ws : List String) : DSt × String :=
   | ["restart"] => ({ d with s := step v d.s .restart, pu := [], pc := [] }, "ok")
   | ["outage", f] => if (parseOutage f).isSome then (d, "ok") else (d, "bad-op")
   | ["recover"] => (d, "ok")
+  | ["awaitfail", k] => if (parseId k).isSome then (d, "ok") else (d, "bad-op")
   | ["settle"] =>
     let r := drain v d.s .ok []
     let d' := { d with s := r.1 }
